@@ -488,6 +488,49 @@ def dumpForTreeDoc (s : PyVal) (variant arch basepath : Str) : Except Err PyVal 
 def dumpForTree (s : PyVal) (variant arch basepath : Str) : Except Err Str :=
   (dumpForTreeDoc s variant arch basepath).map JsonText.dumps
 
+/-- `item["file"] = _relative_to(item["file"], basepath)` on a stored record (the in-place loop body) -/
+def stripInPlace (b : Str) : PyVal → Option PyVal
+  | .dict r =>
+    match lookup r (lit "file") with
+    | some (.str f) => some (.dict (put r (lit "file") (.str (relativeTo f b))))
+    | _ => none
+  | _ => none
+
+def mapOpt (f : α → Option β) : List α → Option (List β)
+  | [] => some []
+  | x :: xs => match f x, mapOpt f xs with
+    | some y, some ys => some (y :: ys)
+    | _, _ => none
+
+/-- `ExtraFiles.dump_for_tree(output, variant, arch, basepath)` as a state transformer: the manifest afterwards and
+the text written.  The loop body is read from the source (`Gen.dump_for_tree_mode`): a fresh dict per entry leaves
+the manifest alone; rewriting the stored record in place does not (that variant is modelled so that the model keeps
+following a library that does it; `C12_dump_for_tree_pure` is what says the current source does not). -/
+def ExtraFiles.dumpForTreeS (s : PyVal) (variant arch basepath : Str) : PyVal × Except Err Str :=
+  match Gen.dump_for_tree_mode with
+  | .copy => (s, dumpForTree s variant arch basepath)
+  | .inPlace =>
+    match s with
+    | .dict top =>
+      match lookup top variant with
+      | some (.dict am) =>
+        match lookup am arch with
+        | some (.list l) =>
+          match mapOpt (stripInPlace basepath) l with
+          | some l' =>
+            (.dict (put top variant (.dict (put am arch (.list l')))),
+             .ok (JsonText.dumps (.dict [(lit "header", .dict [(lit "version", .str (lit "1.0"))]), (lit "data", .list l')])))
+          | none => (s, .error .other)
+        | some _ => (s, .error .other)
+        | none => (s, .error .keyError)
+      | some _ => (s, .error .typeError)
+      | none => (s, .error .keyError)
+    | _ => (s, .error .typeError)
+  | .unknown => (s, .error .other)
+
+/-- `obj[variant]` (`__getitem__`): a read -/
+def getVariant (s : PyVal) (variant : Str) : PyVal × Except Err PyVal := (s, getItem s variant)
+
 /-! ### histories -/
 
 inductive Kind where
